@@ -42,6 +42,7 @@ package cache
 //@   requires c != nil
 //@   modifies fsExists, failBudget, fdPath, fdMode, fdClosed, gCleanup
 //@   at call os.Remove#1: requires entryName(my_name) && sameStr(name, joinP(subdir, my_name)) && fsExists[name] && fsMtime[name] < tns(cutoff)
+//@   at call (*os.File).Readdirnames#1: requires n <= 0
 //@   loop 1: invariant -1 <= rangeindex && rangeindex < len(names) && (old(failBudget) == 0 ==> failBudget == 0)
 //@   loop 1: invariant forall K {at(names,K)} :: lo(names) <= K && K <= lo(names) + rangeindex && old(failBudget) == 0 && entryName(at(names,K)) && old(fsExists)[joinP(subdir, at(names,K))] && fsMtime[joinP(subdir, at(names,K))] < tns(cutoff) ==> !fsExists[joinP(subdir, at(names,K))]
 //@   loop 1: invariant forall p int {fsExists[p]} :: fsExists[p] ==> old(fsExists)[p]
@@ -74,7 +75,7 @@ package cache
 //@   at call (*cache.Cache).trimSubdir#1: requires sameStr(subdir, joinP(c.dir, gHexName))
 //@   at call (*cache.Cache).trimSubdir#1: ghost_after gSubCount = gSubCount + 1
 //@   loop 1: invariant 0 <= rangeint && rangeint < 256 && gSubCount == old(gSubCount) + rangeint
-//@   ensures err == nil && !recentTrim(rdErr == nil, sid(rec), tns(nowV)) ==> gSubCount == old(gSubCount) + 256
+//@   ensures !recentTrim(rdErr == nil, sid(rec), tns(nowV)) ==> gSubCount == old(gSubCount) + 256
 //@   callee c.now() (r): modifies clock; ensures tns(r) >= old(clock) && clock == tns(r); bind nowV = r
 //@   at call lockedfile.Read#1: bind rdErr = err
 //@   at call strings.TrimSpace#1: bind rec = r
@@ -186,6 +187,8 @@ package cache
 //@   callee c.now() (r): modifies clock
 //@   at call os.OpenFile#1: requires flag & 512 == 0 && flag & 64 == 64
 //@   at call (*os.File).WriteString#1: bind gWrErr = err
+//@   at call (*os.File).WriteString#1: requires sameStr(s, entry)
+//@   ensures result == nil ==> gOpenErr == nil && gWrErr == nil
 //@   at call (*os.File).Truncate#1: requires gWrErr == nil && size == len(entry)
 //@   at call os.Remove#1: requires err != nil && sameStr(name, file)
 //@   ensures result != nil && gOpenErr == nil ==> gCleanup[gFile] || failBudget < old(failBudget)
